@@ -28,7 +28,8 @@ Section Final.
   Variable k : Q.
   Hypothesis Hk : 0 < k.
   Variable SR : FStyle XQ -> FStyle XQ -> Prop.
-  Hypothesis SR_weak : forall s s', SR s s' -> fstyle_wrel k s s'.
+  Variable crow : bool.        (* the direction of the container *)
+  Hypothesis SR_weak : forall s s', SR s s' -> fstyle_wrel k crow s s'.
   Notation L := (sc k).
   Notation O := (op_rel (sc k)).
   Notation A := (av_rel (sc k)).
@@ -146,7 +147,7 @@ Section Final.
   Lemma ans_of_rel o o' : output_rel k o o' -> ans_rel k (ans_of o) (ans_of o').
   Proof. intros (Hs & _ & [_ Hb] & _). split; assumption. Qed.
 
-  Lemma rel_item_scrollbar_size s s' : fstyle_wrel k s s' -> sz_rel L (item_scrollbar_size s) (item_scrollbar_size s').
+  Lemma rel_item_scrollbar_size s s' : fstyle_wrel k crow s s' -> sz_rel L (item_scrollbar_size s) (item_scrollbar_size s').
   Proof.
     intros Ws. wstyle_open Ws. unfold item_scrollbar_size. rewrite Wov.
     split; cbn [width height]; match goal with |- context [if ?b then _ else _] => destruct b end; auto using sc_zero.
@@ -242,7 +243,7 @@ Section Final.
       apply (ScaleAbsProofs.arel_opt_or L); cbn [op_rel]; assumption.
   Qed.
 
-  Lemma rel_abs_query_input ac ac' nis nis' s s' : ScaleAbs.flexc_rel k ac ac' -> sz_rel O nis nis' -> fstyle_wrel k s s' ->
+  Lemma rel_abs_query_input ac ac' nis nis' s s' : ScaleAbs.flexc_rel k ac ac' -> sz_rel O nis nis' -> fstyle_wrel k crow s s' ->
     fin_rel k (abs_query_input ac nis s) (abs_query_input ac' nis' s').
   Proof.
     intros Hac Hn Ws. wstyle_open Ws. pose proof (Wabs _ _ Hac) as Hi. unfold abs_query_input.
@@ -253,7 +254,7 @@ Section Final.
     split; cbn [width height av_rel]; apply (ScaleAbsProofs.rel_maybe_clamp_FOO k Hk); assumption.
   Qed.
 
-  Lemma rel_abs_layout ac ac' s s' order m m' c c' : ScaleAbs.flexc_rel k ac ac' -> fstyle_wrel k s s' -> sz_rel L m m' -> sz_rel L c c' ->
+  Lemma rel_abs_layout ac ac' s s' order m m' c c' : ScaleAbs.flexc_rel k ac ac' -> fstyle_wrel k crow s s' -> sz_rel L m m' -> sz_rel L c c' ->
     flay_rel k (abs_layout ac s order m c) (abs_layout ac' s' order m' c').
   Proof.
     intros Hac Ws [Hmw Hmh] Hc. wstyle_open Ws. pose proof (Wabs _ _ Hac) as Hi. unfold abs_layout.
@@ -310,7 +311,8 @@ Section Whole.
   Variable k : Q.
   Hypothesis Hk : 0 < k.
   Variable SR : FStyle XQ -> FStyle XQ -> Prop.
-  Hypothesis SR_weak : forall s s', SR s s' -> fstyle_wrel k s s'.
+  Variable crow : bool.        (* the direction of the container *)
+  Hypothesis SR_weak : forall s s', SR s s' -> fstyle_wrel k crow s s'.
   Variables tau tau' : XQ.
   Notation L := (sc k).
   Notation O := (op_rel (sc k)).
@@ -328,7 +330,7 @@ Section Whole.
     end = true.
 
   Ltac ap lem :=
-    first [eapply (lem k Hk SR SR_weak) | eapply (lem k Hk SR) | eapply (lem k SR SR_weak)
+    first [eapply (lem k Hk SR crow SR_weak) | eapply (lem k SR crow SR_weak) | eapply (lem k Hk SR SR_weak) | eapply (lem k Hk SR) | eapply (lem k SR SR_weak)
           | eapply (lem k SR) | eapply (lem k Hk) | eapply (lem k) | eapply lem].
 
   Lemma rel_determine_available_space kd kd' av av' kc kc' : sz_rel O kd kd' -> sz_rel A av av' -> kconst_rel k kc kc' ->
@@ -341,7 +343,7 @@ Section Whole.
 
   (* steps 6 .. end *)
   Lemma flex_after_main_size_rel s s' absl absl' flags inp inp' kc kc' av av' lens om om' im im' ws ws' :
-    fstyle_wrel k s s' -> Forall2 (absc_rel SR) absl absl' -> fin_rel k inp inp' -> kconst_rel k kc kc' -> sz_rel A av av' ->
+    fstyle_wrel k crow s s' -> Forall2 (absc_rel SR) absl absl' -> fin_rel k inp inp' -> kconst_rel k kc kc' -> sz_rel A av av' ->
     L om om' -> L im im' -> Forall2 WR ws ws' ->
     AR (flex_after_main_size s absl flags inp kc av lens om im ws) (flex_after_main_size s' absl' flags inp' kc' av' lens om' im' ws').
   Proof.
@@ -429,11 +431,11 @@ Section Whole.
   Qed.
 
   Lemma flex_core_t_rel s s' inp inp' kc kc' items items' absl absl' flags :
-    floor_ok kc (determine_available_space (qi_known inp) (qi_avail inp) kc) ->
-    fstyle_wrel k s s' -> fin_rel k inp inp' -> kconst_rel k kc kc' -> Forall2 WR items items' -> Forall2 (absc_rel SR) absl absl' ->
+    floor_ok kc (determine_available_space (qi_known inp) (qi_avail inp) kc) -> k_row kc = crow ->
+    fstyle_wrel k crow s s' -> fin_rel k inp inp' -> kconst_rel k kc kc' -> Forall2 WR items items' -> Forall2 (absc_rel SR) absl absl' ->
     AR (flex_core_t tau s inp kc items absl flags) (flex_core_t tau' s' inp' kc' items' absl' flags).
   Proof.
-    intros Hfloor Ws Hinp Hc Hit Habs. unfold flex_core_t.
+    intros Hfloor Ecrow Ws Hinp Hc Hit Habs. unfold flex_core_t.
     pose proof Hinp as (Emode & Esz & Eax & Hkd & Hps & Hiav & Ecol). pose proof Hc as Hc0. kconst_open Hc. rewrite Ekr, Ekw.
     pose proof Ws as Ws0. wstyle_open Ws. pose proof (rel_scrollbar_gutter k s s' Wov Wsw) as Hgut.
     pose proof (rel_determine_available_space _ _ _ _ _ _ Hkd Hiav Hc0) as Hav.
@@ -467,7 +469,7 @@ Section Whole.
                     flex_after_main_size s' absl' flags inp' (with_main_size s' kc' outer_main inner_main) av' lens outer_main inner_main ws')).
       { intros xs xs' o o' Hxs Ho. destruct (rel_finish_main_size k Hk _ _ _ _ _ _ Hc0 Hgut Ho) as [H1 H2].
         destruct (finish_main_size kc (scrollbar_gutter s) o) as [a b], (finish_main_size kc' (scrollbar_gutter s') o') as [a' b']. cbn [fst snd] in H1, H2.
-        apply flex_after_main_size_rel; try assumption. ap rel_with_main_size; assumption. }
+        apply flex_after_main_size_rel; try assumption. ap rel_with_main_size; eassumption. }
       pose proof (rel_main_branch k _ _ _ _ Hc0 Hav) as Hmb.
       destruct (main_branch kc av) as [a| |], (main_branch kc' av') as [a'| |]; cbn [mb_rel] in Hmb; try contradiction.
       + pose proof (regroup_rel WR lens _ _ Hws) as Hl. apply Hcont; [exact Hws|]. rewrite (rel_length (Forall2 WR) _ _ Hl).
@@ -480,17 +482,17 @@ Section Whole.
         apply (qmap_rel (fin_rel k) (output_rel k) (flay_rel k) (ans_rel k) (ans_of_rel k) WR w_node); try exact Hws.
         { apply wr_node. }
         { intros w w' Hw. ap rel_intrinsic_asks; assumption. }
-        { intros w w' a a' Hw Ha. apply (rel_intrinsic_upd k Hk SR SR_weak tau tau' Htau Htau_pos); assumption. }
+        { intros w w' a a' Hw Ha. apply (rel_intrinsic_upd k Hk SR crow SR_weak tau tau' Htau Htau_pos); assumption. }
         intros xs xs' Hxs. apply Hcont; [exact Hxs|]. apply sc_add; [|exact Hinset].
         ap rel_intrinsic_main_size; [exact Hc0|]. apply regroup_rel. exact Hxs.
   Qed.
 
   Theorem flex_alg_t_rel s s' st st' i i' :
-    (sc k tau tau' /\ gtb tau zero = true) \/ flex_main_not_intrinsic s i = true ->
+    (sc k tau tau' /\ gtb tau zero = true) \/ flex_main_not_intrinsic s i = true -> fs_row s = crow ->
     SR s s' -> Forall2 SR st st' -> fin_rel k i i' ->
     AR (flex_alg_t tau s st i) (flex_alg_t tau' s' st' i').
   Proof.
-    intros Hfloor Hs Hst Hi. unfold flex_main_not_intrinsic in Hfloor. pose proof (SR_weak _ _ Hs) as Ws. pose proof Ws as Ws0. wstyle_open Ws.
+    intros Hfloor Ecrow Hs Hst Hi. unfold flex_main_not_intrinsic in Hfloor. pose proof (SR_weak _ _ Hs) as Ws. pose proof Ws as Ws0. wstyle_open Ws.
     pose proof Hi as (Emode & Esz & Eax & Hkd & Hps & Hiav & Ecol). unfold flex_alg_t. rewrite Emode, Esz.
     pose proof (Wkd _ _ _ _ (qi_sizing i) Hkd Hps) as Hskd.
     set (kd := styled_known_dimensions (to_cstyle s) (qi_known i) (qi_parent i) (qi_sizing i)) in *.
@@ -499,7 +501,7 @@ Section Whole.
     assert (Hprel : AR (flex_preliminary_t tau s st (mkFIn (qi_mode i) (qi_sizing i) (qi_axis i) kd (qi_parent i) (qi_avail i) (qi_collapsible i)))
                        (flex_preliminary_t tau' s' st' (mkFIn (qi_mode i) (qi_sizing i) (qi_axis i') kd' (qi_parent i') (qi_avail i') (qi_collapsible i')))).
     { unfold flex_preliminary_t. cbn [qi_known qi_parent]. pose proof (Wconst _ _ _ _ Hskd Hps) as Hc.
-      unfold container_align_items. rewrite Wai, (rel_hidden_flags k SR SR_weak _ _ Hst).
+      unfold container_align_items. rewrite Wai, (rel_hidden_flags k SR crow SR_weak _ _ Hst).
       apply flex_core_t_rel; try assumption.
       - rewrite Eax, Ecol. apply fin_rel_mk; assumption.
       - ap rel_flex_items; assumption.
